@@ -163,8 +163,8 @@ def jobs(prop, tier):
         js.append(_job("A-release", "A", "release", [3, 11], 1.0, 100))
         if prop != "C17":
             js.append(_job("D-release", "D", "release", [7], 1.0, 100))
-        if prop in OVERFLOW_PROPS:
-            js.append(_job("B-dev", "B", "dev", [5], 0.5, 100))
+        # debug-assertion / overflow-check build: a slice for every property (behaviour may differ between profiles)
+        js.append(_job("B-dev", "B", "dev", [5], 0.5 if prop in OVERFLOW_PROPS else 0.25, 100))
     else:
         js.append(_job("B-release", "B", "release", range(NSHARDS), 1.0, 420))
         js.append(_job("A-release", "A", "release", range(NSHARDS), 0.2, 200))
